@@ -1529,6 +1529,96 @@ fn watchdog(slots: Vec<Arc<Slot>>, epoch: Instant, stop: Arc<AtomicBool>) -> std
   })
 }
 
+/// convert / substring / replace applied to every short text over a case-and-width alphabet
+fn transform_family(rep: &Reporter, thorough: bool) -> (u64, u64, u64) {
+  use rayon::prelude::*;
+  let syms = ["a", "B", "é", "É", "д", "Д", "_", "-", " ", "1", "🦀"];
+  let max = if thorough { 5 } else { 4 };
+  let texts: Vec<String> = (0..vcore::gen::count(syms.len(), max))
+    .map(|i| vcore::gen::nth_tokens(syms.len(), max, i).iter().map(|&t| syms[t]).collect::<String>())
+    .filter(|t| !t.contains('\'') && !t.contains('\\'))
+    .collect();
+  let cases = ["lowerCase", "upperCase", "capitalize", "camelCase", "snakeCase", "kebabCase", "pascalCase"];
+  let seps = ["caseChange", "dash", "dot", "slash", "space", "underscore"];
+  let mut sep_sets: Vec<Option<Vec<&str>>> = vec![None];
+  for (i, a) in seps.iter().enumerate() {
+    sep_sets.push(Some(vec![*a]));
+    for b in &seps[i + 1..] {
+      sep_sets.push(Some(vec![*a, *b]));
+    }
+  }
+  let mut configs: Vec<Value> = vec![];
+  for c in cases {
+    for ss in &sep_sets {
+      let mut o = json!({"source": "$A", "toCase": c});
+      if let Some(ss) = ss {
+        o["separatedBy"] = json!(ss);
+      }
+      configs.push(json!({"convert": o}));
+    }
+  }
+  let idx: Vec<Option<i64>> = std::iter::once(None).chain((-3..=3).map(Some)).collect();
+  for a in &idx {
+    for b in &idx {
+      let mut o = json!({"source": "$A"});
+      if let Some(a) = a {
+        o["startChar"] = json!(a);
+      }
+      if let Some(b) = b {
+        o["endChar"] = json!(b);
+      }
+      configs.push(json!({"substring": o}));
+    }
+  }
+  for (re, by) in [("a", "é"), ("[éÉ]", ""), ("(?P<x>.)", "$x$x"), ("^", "🦀"), ("\\b", "-"), (".$", "")] {
+    configs.push(json!({"replace": {"source": "$A", "replace": re, "by": by}}));
+  }
+  let evals = AtomicU64::new(0);
+  let mb = AtomicU64::new(0);
+  let lang = SupportLang::JavaScript;
+  let greps: Vec<(String, AstGrep<D>)> = texts.iter().map(|t| (t.clone(), lang.ast_grep(format!("'{t}'")))).collect();
+  configs.par_iter().for_each(|cfg| {
+    let doc = json!({"id": "t", "language": "JavaScript", "rule": {"pattern": "$A", "kind": "string_fragment"}, "transform": {"T": cfg}, "fix": "<$T>", "message": "m $T"});
+    let globals = GlobalRules::default();
+    let rule = match guarded(std::panic::AssertUnwindSafe(|| from_yaml_string::<SupportLang>(&doc.to_string(), &globals))) {
+      Ok(Ok(mut r)) => r.pop().unwrap(),
+      Ok(Err(_)) => return,
+      Err(msg) => {
+        rep.violation(&format!("load:panic:transform-family:{}", msg.chars().filter(|c| !c.is_ascii_digit()).take(60).collect::<String>()), json!({"transform": cfg, "panic": msg}));
+        return;
+      }
+    };
+    for (t, g) in &greps {
+      evals.fetch_add(1, Ordering::Relaxed);
+      let cs: Vec<char> = t.chars().collect();
+      if cs.windows(2).any(|w| w[0].is_lowercase() && w[1].is_uppercase() && (w[0].len_utf8() > 1 || w[1].len_utf8() > 1)) {
+        mb.fetch_add(1, Ordering::Relaxed);
+      }
+      let r = guarded(std::panic::AssertUnwindSafe(|| {
+        let mut n = 0;
+        for nm in g.root().find_all(&rule.matcher) {
+          let _ = rule.get_message(&nm);
+          if let Ok(Some(f)) = rule.get_fixer() {
+            let e = nm.make_edit(&rule.matcher, &f);
+            String::from_utf8(e.inserted_text).map_err(|_| "fix text is not UTF-8")?;
+          }
+          n += 1;
+        }
+        Ok::<u32, &'static str>(n)
+      }));
+      match r {
+        Ok(Ok(_)) => {}
+        Ok(Err(e)) => rep.violation("scan:transform-family:invalid-utf8", json!({"transform": cfg, "text": t, "error": e})),
+        Err(msg) => rep.violation(
+          &format!("scan:panic:transform-family:{}:{}", cfg.as_object().unwrap().keys().next().unwrap(), msg.chars().map(|c| if c.is_ascii_digit() { '#' } else { c }).take(48).collect::<String>().split('`').next().unwrap_or("")),
+          json!({"transform": cfg, "text": t, "panic": msg, "at": last_panic_loc()}),
+        ),
+      }
+    }
+  });
+  (evals.load(Ordering::Relaxed), mb.load(Ordering::Relaxed), configs.len() as u64)
+}
+
 fn main() {
   let args = Args::parse();
   if args.extra.iter().any(|a| a == "--child") {
@@ -1750,9 +1840,12 @@ fn main() {
       "child_stack_bytes": CHILD_STACK,
       "worker_children": nworkers,
     });
+  let (tf_evals, tf_nonascii_case_changes, tf_configs) = transform_family(&rep, args.thorough());
   let cov = json!({
-    "evaluations": ran,
+    "evaluations": ran + tf_evals,
     "distinct_nontrivial": distinct_matched,
+    "transform_text_family": {"configs": tf_configs, "evaluations": tf_evals, "evaluations_on_texts_with_a_multibyte_case_change": tf_nonascii_case_changes,
+      "what": "every convert (7 cases x separatedBy absent / each single separator / each pair of separators), substring (start,end in -3..3|absent) and replace (6 regexes) transform of `$A` x every text of <= 4 symbols over {a, B, é, É, д, Д, _, -, space, 1, crab} captured as a JavaScript string fragment; loaded through from_yaml_string and applied by the real matcher in-process under catch_unwind: no panic, result valid UTF-8"},
     "rule": "a case = (global utility rule files, rule file) text; cases = skeleton S1 (rule file with every section) and S2 (global utility rule file): every single substitution of every slot (every node of the document tree) by every value of the nasty alphabet + per-slot valid alternates + (map slots) one added key per nasty string; every pair of substitutions at two non-nested slots inside the sections transform / fix / rewriters / each nthChild / each range (quick: values from the reduced alphabet + alternates; thorough: full alphabet, and additionally every other non-nested slot pair of the whole document with the mini alphabet + alternates); every reference cycle of length 1..3 over the edge alphabet, see bounds; a list of raw texts. A text produced by two different substitutions is run (and counted per family) twice; `cases_distinct` and `distinct_nontrivial` count distinct texts. Each accepted configuration is scanned (find_all, get_message, get_fixer + make_edit + generate_replacement) over the source set of its language. distinct_nontrivial = distinct texts the loader accepted AND that produced at least one match during the scan (so message / transform / fix code ran)",
     "exhaustive": only.is_none(),
     "debug_family_filter": only,
